@@ -125,7 +125,7 @@ Definition step (count : N) (rs : rstate * list N) (o : sop) : rstate * list N :
   let '(r, errs) := rs in
   match o with
   | SEv key ns ek act val tm obs =>
-      let e1 := if list_eqb nnn_eqb obs (st_view key (r_st r)) then [] else [100] in
+      let e1 := if list_eqb nnn_eqb obs (st_view key (r_st r)) then [] else [if r_class r then 120 else 100] in
       let st' := match act with
                  | 1 => st_put (key, ns, ek) val (r_st r)
                  | 2 => st_del (key, ns, ek) (r_st r)
@@ -136,7 +136,7 @@ Definition step (count : N) (rs : rstate * list N) (o : sop) : rstate * list N :
       let due := filter (fun x => fst x <=? t) (r_tm r) in
       let rest := filter (fun x => negb (fst x <=? t)) (r_tm r) in
       let got := fold_right tm_add [] (map (fun kt => (snd kt, fst kt)) fired) in
-      let e1 := if list_eqb nn_eqb due got && (length fired =? length got)%nat then [] else [101] in
+      let e1 := if list_eqb nn_eqb due got && (length fired =? length got)%nat then [] else [if r_class r then 120 else 101] in
       (mkR (r_st r) rest (N.max t (r_wm r)) (r_n r) (r_class r), errs ++ e1)
   | SRescale n recorded asg layout_ok probes =>
       let to := kg_ranges count n in
@@ -148,13 +148,7 @@ Definition step (count : N) (rs : rstate * list N) (o : sop) : rstate * list N :
   end.
 
 Definition check_rescale (count n0 : N) (ops : list sop) : list N :=
-  let '(r, errs) := fold_left (step count) ops (mkR [] [] 0 n0 false, []) in
-  let spec := filter (fun c => (c =? 100) || (c =? 101)) errs in
-  let other := filter (fun c => negb ((c =? 100) || (c =? 101))) errs in
-  match spec with
-  | [] => other
-  | _ => if r_class r then 120 :: filter (fun c => negb (c =? 22)) other else errs
-  end.
+  snd (fold_left (step count) ops (mkR [] [] 0 n0 false, [])).
 
 Definition check_case (c : case) : list N :=
   match c with
